@@ -31,6 +31,7 @@ def check(ctx):
     _interp(ctx)
     _reconstruction(ctx)
     _export_rank(ctx)
+    _export_columns(ctx)
     # a memoised view must be keyed by everything that selects it (a cache slot shared by several views makes the value depend on access order)
     from ..dispatch import check_cache_keys
     check_cache_keys(ctx, rule="R5-cache-key", about=("other",))
@@ -51,9 +52,11 @@ def _interp(ctx):
     KIND.update({"q": "real", "j": "nat", "nfb": "nat"})
     from ..symalg import ARRAY_KIND, mk_idx, I_
     ARRAY_KIND["fgrid"] = "real"
-    n = X.var("nfb")
-    for is_complex in (True, False):
+    for is_complex, n in [(c_, n_) for n_ in (X.var("nfb"), X.const(1)) for c_ in (True, False)]:
         I = Interp(ctx.repo)
+        single = n.as_int() == 1
+        # generic grid: more than one bin (the single-bin result is its own instance)
+        I.hooks["decide"] = lambda cond: (False if getattr(cond, "eq", None) is not None and any("nfb" in e.fv() for e in cond.eq[1:] if isinstance(e, X)) and not any("q" in e.fv() for e in cond.eq[1:] if isinstance(e, X)) else None)
         tname = "Tc" if is_complex else "Tr"
         ARRAY_KIND[tname] = "complex" if is_complex else "real"
         tgt = ArrParam(tname, kind="complex" if is_complex else "real", shape=(n,))
@@ -78,25 +81,41 @@ def _interp(ctx):
                     if vx is None or own is None: return Opaque(f"np.interp {side}= value not recognised")
                     if not vx.eq(own):
                         return Mismatch(f"np.interp(..., {side}={vx!r}): outside the grid the value is not clamped to the interpolated array's own {'first' if side == 'left' else 'last'} sample ({own!r})")
+                if XP.axes[0][1].as_int() == 1:
+                    # a one-point table: np.interp returns fp[0] at every abscissa
+                    v0 = to_x(arr_index(FP, X.const(0)))
+                    return lift1(lambda _q: v0, x) if isinstance(x, (Arr, ArrParam)) else v0
                 j = X.var("j")
                 return mk_fn("interp", [to_x(x), to_x(arr_index(XP, j)), to_x(arr_index(FP, j))], "real")
             if name == "numpy.isscalar": return Opaque("isscalar")
+            if name in ("numpy.full_like",) and len(args) >= 2:
+                # the result takes the dtype of the template: a complex fill value is cast to the (real) template's type
+                tmpl, v = args[0], to_x(args[1])
+                if v is None: return Opaque("np.full_like fill value")
+                dt = kw.get("dtype")
+                keep = dt is not None and "complex" in repr(dt)
+                if dt is not None and not keep and not is_opaque(dt) and "float" not in repr(dt): return Opaque("np.full_like dtype")
+                vv = v if (keep or v.isreal()) else v.real()
+                return lift1(lambda _q: vv, tmpl) if isinstance(tmpl, (Arr, ArrParam)) else vv
             return NotImplemented
         I.hooks["lib"] = lib
         me = Obj(CLS)
 
-        def hook(kind, o, attr, v, st, tgt=tgt, fgrid=fgrid):
+        def hook(kind, o, attr, v, st, tgt=tgt, fgrid=fgrid, n=n):
             if kind == "getattr":
                 if attr == "f": return fgrid
+                if attr == "nf": return n
                 return tgt
             return NotImplemented
         me.hook = hook
         st = St()
         r = I.call_func(Func(key, fn), [me, X.var("q"), "anything"], {}, st, None)
-        c = f"{key}[{'complex' if is_complex else 'real'} quantity]"
+        c = f"{key}[{'complex' if is_complex else 'real'} quantity{', single-bin result' if single else ''}]"
         q = X.var("q"); j = X.var("j")
         fj = mk_idx("fgrid", [j], "real"); tj = mk_idx(tname, [j], "complex" if is_complex else "real")
-        if is_complex:
+        if single:
+            want = mk_idx(tname, [X.const(0)], "complex" if is_complex else "real")         # the one tabulated value, at every frequency
+        elif is_complex:
             want = mk_fn("interp", [q, fj, tj.real()], "real") + X(I_) * mk_fn("interp", [q, fj, tj.imag()], "real")
         else:
             want = mk_fn("interp", [q, fj, tj], "real")
@@ -278,6 +297,64 @@ def _rank_of(repo, rel, e, depth=0):
             if isinstance(a, ast.Tuple): return len(a.elts) if len(a.elts) != 1 else 1
             return 1
     return None
+
+
+def _export_columns(ctx, rule="R4-export-columns"):
+    """to_dataframe is interpreted on a result whose dir() lists per-bin arrays (length nf), quantities that do not apply (None), scalars and methods:
+    the frame must be built from 'f' plus every per-bin array, unchanged - for a generic nf, for a single-bin result (nf = 1) and for nf = 2."""
+    from ..absint import Interp, St
+    from ..values import Obj, ArrParam, ListVal, DictVal, BoundMethod, PV, is_opaque
+    repo = ctx.repo
+    key = CLS + ".to_dataframe"; fn = repo.get(key); where = repo.where(key, fn); ctx.analysed(key)
+    dyn = [n_ for n_ in dir_names(repo)]
+    ctx.need("per-bin attribute names advertised by __dir__", len(dyn), 30)
+    perbin = ["f", "L", "K", "navg", "D"] + dyn
+    none = dyn[-3:]                                       # three of them stand for quantities that do not apply to the analysis type
+    perbin = [n_ for n_ in perbin if n_ not in none]
+    methods = ["plot", "to_dataframe", "get_rms", "get_measurement"]
+    for n, label in ((X.var("nf"), "generic nf"), (X.const(1), "single-bin result"), (X.const(2), "nf=2")):
+        I = Interp(repo)
+        vals = {nm: ArrParam("col_" + nm, shape=(n,)) for nm in perbin}
+        vals.update({nm: None for nm in none}); vals.update({"iscsd": True, "fs": X.var("fs"), "nf": n, "_data": DictVal({})})
+        me = Obj(CLS)
+
+        def hook(kind, o, k_, v, st, vals=vals):
+            if kind == "getattr":
+                if k_ in vals: return vals[k_]
+                if k_ in methods: return BoundMethod(o, k_)
+            return NotImplemented
+        me.hook = hook
+        made = []
+
+        def lib(I_, name, args, kw, st, nd, made=made, vals=vals):
+            if name == "builtins.dir": return ListVal(sorted(list(vals) + methods))
+            if name == "pandas.DataFrame":
+                made.append(args[0] if args else kw.get("data")); return Obj("frame")
+            return NotImplemented
+        I.hooks["lib"] = lib
+        c = f"{key}[{label}]"
+        try: I.call_key(key, [me], {}, St())
+        except Unknown as ex:
+            ctx.unknown(rule, c, str(ex), where); continue
+        if len(made) != 1 or not isinstance(made[0], DictVal):
+            ctx.unknown(rule, c, f"DataFrame construction not recognised: {made!r}"[:200], where); continue
+        d = made[0].d
+        missing = [nm for nm in perbin if nm not in d or repr(d[nm]) == "<missing>"]
+        cond = [nm for nm in perbin if nm in d and isinstance(d[nm], PV)]
+        changed = [nm for nm in perbin if nm in d and not isinstance(d[nm], PV) and not (isinstance(d[nm], ArrParam) and d[nm].name == "col_" + nm)]
+        extra = [k_ for k_ in d if k_ not in perbin]
+        if missing:
+            ctx.violated(rule, c, f"{len(missing)} per-bin arrays are not exported ({', '.join(missing[:6])}...): the frame of a {label} lacks columns the result has", where)
+        elif changed and all(is_opaque(d[nm]) for nm in changed):
+            ctx.unknown(rule, c, f"column {changed[0]} receives {d[changed[0]]!r}"[:200], where)
+        elif changed:
+            ctx.violated(rule, c, f"column {changed[0]} is exported as {d[changed[0]]!r}, not as the per-bin array itself"[:300], where)
+        elif extra:
+            ctx.violated(rule, c, f"columns {extra[:5]} are exported although they are not per-bin arrays", where)
+        elif cond:
+            ctx.unknown(rule, c, f"column {cond[0]} is exported only under an undecided condition: {d[cond[0]]!r}"[:300], where)
+        else:
+            ctx.holds(rule, c, f"'f' and all {len(perbin) - 1} per-bin arrays are exported unchanged; None, scalars and methods are skipped", where)
 
 
 def _export_rank(ctx):
